@@ -39,7 +39,9 @@ CONSTANTS
   Weights,      \* weights (quanta) offered to AddW; 0 and -1 (a negative weight) allowed
   Factors,      \* reweight factors <<num, den>>; num <= 0 is refused
   Ops,          \* enabled operation names
-  InitSketches  \* [Slots -> sketch record] (variant, mapping token, store kinds)
+  InitSketches, \* [Slots -> sketch record] (variant, mapping token, store kinds)
+  MapToks,      \* mapping tokens offered to ChangeMap
+  ScaleToks     \* scale-factor tokens offered to ChangeMap (0 stands for the factor 1)
 
 VARIABLES sk, last, err
 vars == <<sk, last, err>>
@@ -68,7 +70,8 @@ NewSketch(variant, m, posKind, posN, negKind, negN) ==
   [variant |-> variant, m |-> m,
    pos |-> NewStore(posKind, posN), neg |-> NewStore(negKind, negN), zero |-> 0,
    bag |-> EmptyMap, lpos |-> EmptyMap, lneg |-> EmptyMap,
-   xcnt |-> 0, xmin |-> PInf, xmax |-> NInf]
+   xcnt |-> 0, xmin |-> PInf, xmax |-> NInf,
+   opq |-> FALSE]   \* opaque: produced by a mapping change, bin-level content not predicted (see ChangeMap)
 
 FreshSketch(s) == NewSketch(s.variant, s.m, s.pos.kind, s.pos.n, s.neg.kind, s.neg.n)
 
@@ -200,14 +203,14 @@ MergeStats(t, s) ==
 \* t.MergeWith(s): store merges with the same-kind fast paths
 ApplyMergeSk(t, s) ==
   MergeStats([t EXCEPT !.pos = ApplyMerge(t.pos, s.pos), !.neg = ApplyMerge(t.neg, s.neg),
-                       !.zero = t.zero + s.zero,
+                       !.zero = t.zero + s.zero, !.opq = t.opq \/ s.opq,
                        !.bag = MergeM(t.bag, s.bag),
                        !.lpos = MergeM(t.lpos, s.pos.bins), !.lneg = MergeM(t.lneg, s.neg.bins)], s)
 
 \* decoding s's encoding (binary or protobuf) into t: bins are added one by one
 ApplyAbsorb(t, s) ==
   MergeStats([t EXCEPT !.pos = MergeByAdds(t.pos, s.pos.bins), !.neg = MergeByAdds(t.neg, s.neg.bins),
-                       !.zero = t.zero + s.zero,
+                       !.zero = t.zero + s.zero, !.opq = t.opq \/ s.opq,
                        !.bag = MergeM(t.bag, s.bag),
                        !.lpos = MergeM(t.lpos, s.pos.bins), !.lneg = MergeM(t.lneg, s.neg.bins)], s)
 
@@ -241,6 +244,8 @@ EventsOf(op) ==
     [] op = "EncDec"   -> {Ev(op, s, t, 0, w, 0, 0) : s \in Slots, t \in Slots, w \in {0, 1}}   \* w = 1: omit the mapping
     [] op = "DecodeNew" -> {Ev(op, s, t, 0, w, 0, 0) : s \in Slots, t \in Slots, w \in {0, 1}}
     [] op = "Proto"    -> {Ev(op, s, t, 0, 0, 0, 0) : s \in Slots, t \in Slots}
+    \* t := s.ChangeMapping(mapping token v, fresh stores of slot t, scale token w); w = 0 is scale 1
+    [] op = "ChangeMap" -> {Ev(op, s, t, m, w, 0, 0) : s \in Slots, t \in Slots, m \in MapToks, w \in ScaleToks}
     \* one buffer holding the encodings of s and of slot v, decoded into t in one call
     [] op = "Concat"   -> {Ev(op, s, t, u, w, 0, 0) : s \in Slots, t \in Slots, u \in Slots, w \in {0, 1}}
     [] op = "Read"     -> {Ev(op, s, 0, 0, 0, 0, 0) : s \in Slots}
@@ -257,6 +262,7 @@ Enabled(S, e) ==
     [] e.op = "Concat"    -> e.s # e.t /\ e.v # e.t /\ S[e.s].m = S[e.t].m /\ S[e.v].m = S[e.t].m
                                /\ DecodableInto(S[e.t], S[e.s]) /\ DecodableInto(S[e.t], S[e.v])
     [] e.op = "DecodeNew" -> e.s # e.t /\ DecodableInto(InitSketches[e.t], S[e.s])
+    [] e.op = "ChangeMap" -> e.s # e.t /\ ~S[e.s].opq
     [] e.op = "Proto"     -> e.s # e.t /\ InitSketches[e.t].variant = "plain"
     [] e.op = "Reweight"  -> e.num <= 0 \/ e.num = e.den \/ CanScale(S[e.s], e.num, e.den)
     [] OTHER -> TRUE
@@ -268,12 +274,28 @@ ErrorOf(S, e) ==
     [] e.op = "Reweight" -> IF e.num <= 0 THEN "Factor" ELSE ""
     [] OTHER -> ""
 
-Receiver(e) == IF e.op \in {"Merge", "Copy", "EncDec", "DecodeNew", "Proto", "Concat"} THEN e.t ELSE e.s
+Receiver(e) == IF e.op \in {"Merge", "Copy", "EncDec", "DecodeNew", "Proto", "Concat", "ChangeMap"} THEN e.t ELSE e.s
 
 \* a sketch re-created in slot t by a decoder uses slot t's own store provider and variant
 Rebuilt(S, t, s, m) ==
   LET fresh == FreshSketch([InitSketches[t] EXCEPT !.m = m])
   IN ApplyAbsorb(fresh, S[s])
+
+(***************************************************************************)
+(* ChangeMapping (C17, and the unit-change clause of C10).  With an equal  *)
+(* mapping and scale 1 the result is an exact copy of the source.          *)
+(* Otherwise the weight of every bin is split over the target mapping's    *)
+(* bins in proportion to the overlap - float arithmetic that TLC cannot    *)
+(* follow - so the result is modelled as OPAQUE: the specification only    *)
+(* fixes its variant (the source's), the requested mapping, the exact      *)
+(* count and which source extremes its exact min/max derive from; the      *)
+(* numeric clauses are checked by the harness against the source slot      *)
+(* (allowed source bins per quantile come from the source's prediction).   *)
+(***************************************************************************)
+ChangedMapping(S, e) ==
+  IF e.w = 0 /\ e.v = S[e.s].m THEN S[e.s]
+  ELSE [FreshSketch(InitSketches[e.t]) EXCEPT !.variant = S[e.s].variant, !.m = e.v, !.opq = TRUE,
+                                               !.xcnt = S[e.s].xcnt, !.xmin = S[e.s].xmin, !.xmax = S[e.s].xmax]
 
 ApplyEvent(S, e) ==
   IF ErrorOf(S, e) # "" THEN S      \* C13: a refused call changes nothing
@@ -286,6 +308,7 @@ ApplyEvent(S, e) ==
     [] e.op = "Concat"    -> [S EXCEPT ![e.t] = ApplyAbsorb(ApplyAbsorb(S[e.t], S[e.s]), S[e.v])]
     [] e.op = "DecodeNew" -> [S EXCEPT ![e.t] = Rebuilt(S, e.t, e.s, S[e.s].m)]
     [] e.op = "Proto"     -> [S EXCEPT ![e.t] = Rebuilt(S, e.t, e.s, S[e.s].m)]
+    [] e.op = "ChangeMap" -> [S EXCEPT ![e.t] = ChangedMapping(S, e)]
     [] e.op = "Read"      -> S
 
 -----------------------------------------------------------------------------
@@ -324,7 +347,7 @@ QObs(s, a) ==
 
 Obs(s) ==
   LET W == Count(s) IN
-  [variant |-> s.variant, m |-> s.m,
+  [variant |-> s.variant, m |-> s.m, opq |-> s.opq,
    empty |-> W = 0,
    count |-> W,
    zero  |-> s.zero,
@@ -342,16 +365,19 @@ Obs(s) ==
 -----------------------------------------------------------------------------
 (* Invariants *)
 
+\* slots whose bin-level content the specification predicts
+Live == {i \in Slots : ~sk[i].opq}
+
 NonEmpty(s) == Count(s) > 0
 
 TypeOK ==
-  \A i \in Slots :
+  \A i \in Live :
     /\ sk[i].zero >= 0
     /\ \A v \in DOMAIN sk[i].bag : sk[i].bag[v] > 0 /\ ~IsRefused(v)
 
 \* the bin-level content is the fold of what was offered (C05 at sketch level); weight conserved (C12)
 K_Content ==
-  \A i \in Slots :
+  \A i \in Live :
     /\ sk[i].pos.bins = FoldOf(sk[i].pos.kind, sk[i].pos.n, sk[i].lpos)
     /\ sk[i].neg.bins = FoldOf(sk[i].neg.kind, sk[i].neg.n, sk[i].lneg)
     /\ Count(sk[i]) = Total(sk[i].bag)
@@ -359,7 +385,7 @@ K_Content ==
 
 \* with non-collapsing stores the stores hold exactly the absorbed tokens (C02: any merge tree)
 K_Merge ==
-  \A i \in Slots : (sk[i].pos.kind = "exact" /\ sk[i].neg.kind = "exact" /\
+  \A i \in Live : (sk[i].pos.kind = "exact" /\ sk[i].neg.kind = "exact" /\
                     \A j \in Slots : sk[j].pos.kind = "exact" /\ sk[j].neg.kind = "exact") => ContentExact(sk[i])
 
 BinOfTok(v) == IF IsZeroClass(v) THEN <<0, 0>> ELSE <<SideOf(v), KeyOf(v)>>
@@ -367,7 +393,7 @@ BinOfRank(x) == IF x = 0 THEN <<0, 0>> ELSE IF x > 0 THEN <<1, x - 1>> ELSE <<-1
 
 \* C11 (and C01 for unit weights): the answer is the bin of an allowed element
 K_Rank ==
-  \A i \in Slots : NonEmpty(sk[i]) =>
+  \A i \in Live : NonEmpty(sk[i]) =>
     \A a \in 0..QDen :
       LET s  == sk[i]
           o  == QuantOper(s, a)
@@ -382,7 +408,7 @@ K_Rank ==
 \* fractional weights C11 only promises a rank within one unit of weight), and the
 \* reported extremes are the extreme non-empty bins (C12)
 K_Ends ==
-  \A i \in Slots : NonEmpty(sk[i]) =>
+  \A i \in Live : NonEmpty(sk[i]) =>
     LET cm == ContentMap(sk[i]) IN
       /\ UnitWeights(cm) => /\ QuantOper(sk[i], 0) = BinOfRank(MinI(cm))
                             /\ QuantOper(sk[i], QDen) = BinOfRank(MaxI(cm))
@@ -393,14 +419,14 @@ RankOfBin(o) == BRank(o[1], o[2])
 
 \* C12: non-decreasing in q, inside [min, max]
 K_Monotone ==
-  \A i \in Slots : NonEmpty(sk[i]) =>
+  \A i \in Live : NonEmpty(sk[i]) =>
     /\ \A a \in 0..(QDen - 1) : RankOfBin(QuantOper(sk[i], a)) <= RankOfBin(QuantOper(sk[i], a + 1))
     /\ \A a \in 0..QDen : /\ RankOfBin(MinOper(sk[i])) <= RankOfBin(QuantOper(sk[i], a))
                           /\ RankOfBin(QuantOper(sk[i], a)) <= RankOfBin(MaxOper(sk[i]))
 
 \* C10: exact statistics are functions of the absorbed multiset
 X_Stats ==
-  \A i \in Slots : sk[i].variant = "exact" =>
+  \A i \in Live : sk[i].variant = "exact" =>
     /\ sk[i].xcnt = Total(sk[i].bag)
     /\ (sk[i].xcnt = 0) = (Count(sk[i]) = 0)
     /\ IsEmptyMap(sk[i].bag) => (sk[i].xmin = PInf /\ sk[i].xmax = NInf)
